@@ -455,7 +455,7 @@ for _n in (1, 2):
             ("C04.junction_is_empty_after_the_flush", "self.vals[0] == 0"),
         ] + [
             # one clause per outgoing link (smaller solver queries than one conjunction over the links)
-            ("C04+C07.flushed_by_stated_proportions_link%d" % _k,
+            ("C04+C07+C02.flushed_by_stated_proportions_link%d" % _k,
              "self.outlinks[%d].dest[0] == old(self.outlinks[%d].dest[0]) + old(self.vals[0]) * sum(m.parameter.vals[0] for m in self.outlinks if m.dest is self.outlinks[%d].dest) / sum(m.parameter.vals[0] for m in self.outlinks)" % (_k, _k, _k))
             for _k in range(_n)
         ],
@@ -474,7 +474,7 @@ for _n in (1, 2):
         ] + [
             # stated proportions (scaled down to 1 when they exceed it) to the parameter links, the remainder to the residual link;
             # one clause per outgoing link
-            ("C04+C07.flushed_by_stated_proportions_remainder_to_residual_link%d" % _k,
+            ("C04+C07+C02.flushed_by_stated_proportions_remainder_to_residual_link%d" % _k,
              "self.outlinks[%d].dest[0] == old(self.outlinks[%d].dest[0]) + old(self.vals[0]) * sum((m.parameter.vals[0] / max(1, %s) if m.parameter is not None else max(0, 1 - %s)) for m in self.outlinks if m.dest is self.outlinks[%d].dest)" % (_k, _k, _T, _T, _k))
             for _k in range(_n)
         ],
